@@ -372,7 +372,9 @@ pub trait Reg: Sized + 'static {
     fn run_par_query(w: &mut Self::W, q: usize, term: PTerm, salt: Option<u32>, pool: &rayon::ThreadPool) -> ParOut;
     fn entry_metas() -> &'static [EntryMeta];
     /// run query `e.views`, and through its `entries` probe each id with `e.sub_views`
-    fn entries_query(w: &mut Self::W, e: usize, ids: &[Id], salt: Option<u32>) -> EntriesOut;
+    /// `interleave`: also iterate the query and probe the entries between the items; returns the
+    /// iterated rows as well
+    fn entries_query(w: &mut Self::W, e: usize, ids: &[Id], salt: Option<u32>, interleave: bool) -> (EntriesOut, Option<Vec<QRow>>);
 }
 
 pub type Res4 = brood::Resources!(
